@@ -1,6 +1,10 @@
 import CharsetProof.Props.C01
 import CharsetProof.Props.C18
+import CharsetProof.Props.C18b
 open Charset
+#print axioms C18_alias_decodes_identically
+#print axioms C18_aliases_same_kind
+#print axioms same_codec_same_decode_supported
 #print axioms C18_canonical
 #print axioms C18_accepted_by_filters
 #print axioms C18_lookup
